@@ -418,6 +418,15 @@ fn download_to_file(path: &Path, url: &str, timeout: Duration) -> Result<File> {
         ));
     }
 
+    // A connection that is cut short without a Content-Length still
+    // counts as a success for curl, and a captive portal answers 200 with
+    // a web page. Neither may replace the previous file.
+    temp_file.as_file_mut().seek(SeekFrom::Start(0))?;
+    serde_json::from_reader::<_, serde_json::Value>(std::io::BufReader::new(
+        temp_file.as_file_mut(),
+    ))
+    .wrap_err_with(|| format!("{} did not return complete JSON", url))?;
+
     temp_file.as_file_mut().sync_all()?;
     temp_file.as_file_mut().seek(SeekFrom::Start(0))?;
 
